@@ -194,11 +194,7 @@ func (i *InMemCollector) Start() error {
 	i.done = make(chan struct{})
 	i.reload = make(chan struct{}, 1)
 
-	if i.Config.GetAddHostMetadataToTrace() {
-		if hostname, err := os.Hostname(); err == nil && hostname != "" {
-			i.hostname = hostname
-		}
-	}
+	i.updateHostname()
 
 	// Initialize runtime/metrics sample for efficient memory monitoring
 	i.memMetricSample = make([]rtmetrics.Sample, 1)
@@ -245,6 +241,9 @@ func (i *InMemCollector) reloadConfigs() {
 
 	i.StressRelief.UpdateFromConfig()
 
+	// AddHostMetadataToTrace is reloadable
+	i.updateHostname()
+
 	// Send reload signals to all workers to clear their local samplers
 	// so that the new configuration will be propagated
 	for _, worker := range i.workers {
@@ -254,6 +253,26 @@ func (i *InMemCollector) reloadConfigs() {
 			// Channel already has a signal pending, skip
 		}
 	}
+}
+
+// updateHostname sets the hostname used to decorate spans according to the
+// current AddHostMetadataToTrace setting.
+func (i *InMemCollector) updateHostname() {
+	var hostname string
+	if i.Config.GetAddHostMetadataToTrace() {
+		if h, err := os.Hostname(); err == nil {
+			hostname = h
+		}
+	}
+	i.mutex.Lock()
+	i.hostname = hostname
+	i.mutex.Unlock()
+}
+
+func (i *InMemCollector) getHostname() string {
+	i.mutex.RLock()
+	defer i.mutex.RUnlock()
+	return i.hostname
 }
 
 // checkAlloc performs memory monitoring using runtime/metrics instead of
@@ -482,8 +501,8 @@ func (i *InMemCollector) ProcessSpanImmediately(sp *types.Span) (processed bool,
 	if i.Config.GetAddRuleReasonToTrace() {
 		sp.Data.Set(types.MetaRefineryReason, reason)
 	}
-	if i.hostname != "" {
-		sp.Data.Set(types.MetaRefineryLocalHostname, i.hostname)
+	if hostname := i.getHostname(); hostname != "" {
+		sp.Data.Set(types.MetaRefineryLocalHostname, hostname)
 	}
 
 	i.addAdditionalAttributes(sp)
@@ -501,7 +520,7 @@ func (i *InMemCollector) dealWithSentTrace(ctx context.Context, tr cache.TraceSe
 	_, span := otelutil.StartSpanMulti(ctx, i.Tracer, "dealWithSentTrace", map[string]interface{}{
 		"trace_id":    sp.TraceID,
 		"kept_reason": keptReason,
-		"hostname":    i.hostname,
+		"hostname":    i.getHostname(),
 	})
 	defer span.End()
 
@@ -516,8 +535,8 @@ func (i *InMemCollector) dealWithSentTrace(ctx context.Context, tr cache.TraceSe
 		sp.Data.Set(types.MetaRefinerySendReason, TraceSendLateSpan)
 
 	}
-	if i.hostname != "" {
-		sp.Data.Set(types.MetaRefineryLocalHostname, i.hostname)
+	if hostname := i.getHostname(); hostname != "" {
+		sp.Data.Set(types.MetaRefineryLocalHostname, hostname)
 	}
 	isDryRun := i.Config.GetIsDryRun()
 	keep := tr.Kept()
@@ -741,8 +760,8 @@ func (i *InMemCollector) sendTraces() {
 			if isDryRun {
 				sp.Data.Set(config.DryRunFieldName, t.shouldSend)
 			}
-			if i.hostname != "" {
-				sp.Data.Set(types.MetaRefineryLocalHostname, i.hostname)
+			if hostname := i.getHostname(); hostname != "" {
+				sp.Data.Set(types.MetaRefineryLocalHostname, hostname)
 			}
 			mergeTraceAndSpanSampleRates(sp, t.SampleRate(), isDryRun)
 			i.addAdditionalAttributes(sp)
